@@ -105,3 +105,18 @@ reg('C20',
     'chython canonical strings that differ while RDKit proves identity (C01 exclusion i).',
     'bounded exhaustive enumeration (molecules x numberings on both sides x bridge directions) on the real bridge vs RDKit',
     'DESIGN.md s5 C20')
+
+reg('C05',
+    'Kekule-form inputs are enumerated from (i) a generic generator: mono- and bicyclic skeletons (5, 6, 5-6, 6-6, 5-5; thorough adds 7) x every '
+    'assignment of <=2 (thorough 3) hetero positions (N, N-methyl, O, S) x every double-bond matching, (ii) a template family of six/five-membered, '
+    'fused, charged (pyridinium, pyrylium, cyclopentadienide), quinoid and special rings, (iii) the corpus in Kekule form; each under a subset of '
+    'the GEN renumbering family. For every input the real thiele()/kekule()/enumerate_kekule() are run and the relations of the property are '
+    'checked: conservation of connectivity, charges, radicals, per-atom and total hydrogens, formula; only orders 1-3 and no valence error after '
+    'kekule; thiele(kekule(t)) = t; every enumerated Kekule form valid, distinct, aromatising to the same form and containing the kekule() result; '
+    'second application changes nothing; result mapped back is independent of numbering; the aromatic SMILES text of both writers (every RDKit root) '
+    'reads back and kekulises to the same formula and aromatic form.',
+    'Relational oracle (no reference aromaticity model): what is aromatic is not judged, only stability and conservation. Per-atom H is decided with '
+    'fix_tautomers=False; the default call moving a ring-NH hydrogen is a known finding keyed by call site. Unsaturated four-membered rings are '
+    'excluded from the enumerate clause (property text). Two exotic inputs are recorded as known findings.',
+    'bounded exhaustive enumeration of ring systems x double-bond matchings x renumberings on the real implementation, relational oracle',
+    'DESIGN.md s5 C05')
